@@ -69,6 +69,11 @@ let rec sub n0 m =
             | O -> n0
             | S l -> sub k l)
 
+(** val eqb : bool -> bool -> bool **)
+
+let eqb b1 b2 =
+  if b1 then b2 else if b2 then false else true
+
 module Nat =
  struct
   (** val eqb : nat -> nat -> bool **)
@@ -123,6 +128,12 @@ let rec nth_error l = function
 | S n1 -> (match l with
            | [] -> None
            | _ :: l0 -> nth_error l0 n1)
+
+(** val rev : 'a1 list -> 'a1 list **)
+
+let rec rev = function
+| [] -> []
+| x :: l' -> app (rev l') (x :: [])
 
 (** val rev_append : 'a1 list -> 'a1 list -> 'a1 list **)
 
@@ -951,6 +962,18 @@ let rec get_lists n0 l =
 let of_Ns l =
   map Z.of_N l
 
+(** val list_eqb : z list -> z list -> bool **)
+
+let rec list_eqb a b =
+  match a with
+  | [] -> (match b with
+           | [] -> true
+           | _ :: _ -> false)
+  | x :: a' ->
+    (match b with
+     | [] -> false
+     | y :: b' -> (&&) (Z.eqb x y) (list_eqb a' b'))
+
 (** val m32 : z **)
 
 let m32 =
@@ -1113,6 +1136,164 @@ let step c = function
          | None -> c.hist) }
       | None -> None)
    | None -> Some c)
+
+type oprec = { o_push : bool; o_val : z; o_lp : bool; o_got : z;
+               o_excuse : bool }
+
+type tstate = { t_next : nat; t_cur : oprec option; t_done : oprec list }
+
+type jstate = { j_q : z list; j_ths : tstate list; j_ok : bool }
+
+(** val updn : 'a1 list -> nat -> 'a1 -> 'a1 list **)
+
+let rec updn l i x =
+  match l with
+  | [] -> []
+  | h :: t -> (match i with
+               | O -> x :: t
+               | S j -> h :: (updn t j x))
+
+(** val set_excuse : oprec -> oprec **)
+
+let set_excuse r =
+  { o_push = r.o_push; o_val = r.o_val; o_lp = r.o_lp; o_got = r.o_got;
+    o_excuse = true }
+
+(** val boundary_now : z -> z list -> oprec -> bool **)
+
+let boundary_now cap1 q0 r =
+  if r.o_push
+  then Z.leb cap1 (Z.of_nat (length q0))
+  else (match q0 with
+        | [] -> true
+        | _ :: _ -> false)
+
+(** val look : z -> z list -> tstate -> tstate **)
+
+let look cap1 q0 t =
+  match t.t_cur with
+  | Some r ->
+    if boundary_now cap1 q0 r
+    then { t_next = t.t_next; t_cur = (Some (set_excuse r)); t_done =
+           t.t_done }
+    else t
+  | None -> t
+
+(** val in_flight : tstate -> bool **)
+
+let in_flight t =
+  match t.t_cur with
+  | Some _ -> true
+  | None -> false
+
+(** val excuse_all : tstate -> tstate **)
+
+let excuse_all t =
+  match t.t_cur with
+  | Some r ->
+    { t_next = t.t_next; t_cur = (Some (set_excuse r)); t_done = t.t_done }
+  | None -> t
+
+(** val finish : tstate -> tstate **)
+
+let finish t =
+  match t.t_cur with
+  | Some r -> { t_next = t.t_next; t_cur = None; t_done = (r :: t.t_done) }
+  | None -> t
+
+(** val j_start : z -> z list list -> jstate -> nat -> jstate **)
+
+let j_start cap1 progs s i =
+  match nth_error s.j_ths i with
+  | Some t0 ->
+    let t = finish t0 in
+    (match nth_error (nth i progs []) t.t_next with
+     | Some o ->
+       let others = existsb in_flight (updn s.j_ths i t) in
+       let r = { o_push = (negb (Z.eqb o Z0)); o_val = o; o_lp = false;
+         o_got = Z0; o_excuse = others }
+       in
+       let t' = { t_next = (S t.t_next); t_cur = (Some r); t_done = t.t_done }
+       in
+       let ths0 = updn s.j_ths i t' in
+       let ths1 = if others then map excuse_all ths0 else ths0 in
+       { j_q = s.j_q; j_ths = (map (look cap1 s.j_q) ths1); j_ok = s.j_ok }
+     | None -> { j_q = s.j_q; j_ths = (updn s.j_ths i t); j_ok = false })
+  | None -> { j_q = s.j_q; j_ths = s.j_ths; j_ok = false }
+
+(** val j_lp : z -> jstate -> nat -> bool -> jstate **)
+
+let j_lp cap1 s i push =
+  match nth_error s.j_ths i with
+  | Some t ->
+    (match t.t_cur with
+     | Some r ->
+       if (||) (negb (eqb r.o_push push)) r.o_lp
+       then { j_q = s.j_q; j_ths = s.j_ths; j_ok = false }
+       else if push
+            then let ok = Z.ltb (Z.of_nat (length s.j_q)) cap1 in
+                 let q' = app s.j_q (r.o_val :: []) in
+                 let r' = { o_push = true; o_val = r.o_val; o_lp = true;
+                   o_got = Z0; o_excuse = r.o_excuse }
+                 in
+                 { j_q = q'; j_ths =
+                 (map (look cap1 q')
+                   (updn s.j_ths i { t_next = t.t_next; t_cur = (Some r');
+                     t_done = t.t_done })); j_ok = ((&&) s.j_ok ok) }
+            else (match s.j_q with
+                  | [] -> { j_q = []; j_ths = s.j_ths; j_ok = false }
+                  | x :: q' ->
+                    let r' = { o_push = false; o_val = Z0; o_lp = true;
+                      o_got = x; o_excuse = r.o_excuse }
+                    in
+                    { j_q = q'; j_ths =
+                    (map (look cap1 q')
+                      (updn s.j_ths i { t_next = t.t_next; t_cur = (Some r');
+                        t_done = t.t_done })); j_ok = s.j_ok })
+     | None -> { j_q = s.j_q; j_ths = s.j_ths; j_ok = false })
+  | None -> { j_q = s.j_q; j_ths = s.j_ths; j_ok = false }
+
+(** val check_results : oprec list -> z list -> bool **)
+
+let rec check_results recs res0 =
+  match recs with
+  | [] -> (match res0 with
+           | [] -> true
+           | _ :: _ -> false)
+  | r :: recs' ->
+    (match res0 with
+     | [] -> false
+     | z0 :: l ->
+       (match z0 with
+        | Zpos p ->
+          (match p with
+           | XI _ -> false
+           | XO p0 ->
+             (match p0 with
+              | XH ->
+                (match l with
+                 | [] -> false
+                 | ok :: l0 ->
+                   (match l0 with
+                    | [] -> false
+                    | v :: res' ->
+                      (&&)
+                        ((&&)
+                          ((&&) (negb r.o_push)
+                            (eqb (negb (Z.eqb ok Z0)) r.o_lp))
+                          (if r.o_lp
+                           then Z.eqb v r.o_got
+                           else (&&) (Z.eqb v Z0) r.o_excuse))
+                        (check_results recs' res')))
+              | _ -> false)
+           | XH ->
+             (match l with
+              | [] -> false
+              | b :: res' ->
+                (&&)
+                  ((&&) ((&&) r.o_push (eqb (negb (Z.eqb b Z0)) r.o_lp))
+                    ((||) r.o_lp r.o_excuse)) (check_results recs' res')))
+        | _ -> false))
 
 (** val evLoadU32 : z **)
 
@@ -1324,10 +1505,168 @@ let run_case = function
                          (flat_map enc_slot c.sh.slots))))
                | None -> pANIC :: [])))))
 
+(** val entry0 : z -> z list -> z list **)
+
+let entry0 sub0 args =
+  if Z.eqb sub0 Z0 then run_case args else bADCASE :: []
+
+(** val judge_steps :
+    nat -> z -> z list list -> jstate -> z list -> jstate * z list **)
+
+let rec judge_steps fuel cap1 progs s l =
+  match fuel with
+  | O -> ({ j_q = s.j_q; j_ths = s.j_ths; j_ok = false }, l)
+  | S f ->
+    (match l with
+     | [] -> ({ j_q = s.j_q; j_ths = s.j_ths; j_ok = false }, [])
+     | x :: r ->
+       if Z.eqb x (Zneg XH)
+       then (s, r)
+       else if Z.ltb x (Zneg XH)
+            then judge_steps f cap1 progs s r
+            else (match r with
+                  | [] -> ({ j_q = s.j_q; j_ths = s.j_ths; j_ok = false }, [])
+                  | z0 :: r' ->
+                    (match z0 with
+                     | Z0 ->
+                       judge_steps f cap1 progs
+                         (j_start cap1 progs s (Z.to_nat x)) r'
+                     | Zpos p ->
+                       (match p with
+                        | XI _ ->
+                          ({ j_q = s.j_q; j_ths = s.j_ths; j_ok = false }, [])
+                        | XO p0 ->
+                          (match p0 with
+                           | XH -> judge_steps f cap1 progs s r'
+                           | _ ->
+                             ({ j_q = s.j_q; j_ths = s.j_ths; j_ok = false },
+                               []))
+                        | XH ->
+                          (match r' with
+                           | [] ->
+                             ({ j_q = s.j_q; j_ths = s.j_ths; j_ok = false },
+                               [])
+                           | ek :: l0 ->
+                             (match l0 with
+                              | [] ->
+                                ({ j_q = s.j_q; j_ths = s.j_ths; j_ok =
+                                  false }, [])
+                              | loc :: l1 ->
+                                (match l1 with
+                                 | [] ->
+                                   ({ j_q = s.j_q; j_ths = s.j_ths; j_ok =
+                                     false }, [])
+                                 | _ :: l2 ->
+                                   (match l2 with
+                                    | [] ->
+                                      ({ j_q = s.j_q; j_ths = s.j_ths; j_ok =
+                                        false }, [])
+                                    | _ :: l3 ->
+                                      (match l3 with
+                                       | [] ->
+                                         ({ j_q = s.j_q; j_ths = s.j_ths;
+                                           j_ok = false }, [])
+                                       | res0 :: r'0 ->
+                                         let s1 = { j_q = s.j_q; j_ths =
+                                           (map (look cap1 s.j_q) s.j_ths);
+                                           j_ok = s.j_ok }
+                                         in
+                                         if (&&)
+                                              ((&&) (Z.eqb ek evCasU32)
+                                                (Z.eqb res0 (Zpos XH)))
+                                              (Z.eqb loc locTail)
+                                         then judge_steps f cap1 progs
+                                                (j_lp cap1 s1 (Z.to_nat x)
+                                                  true) r'0
+                                         else if (&&)
+                                                   ((&&) (Z.eqb ek evCasU32)
+                                                     (Z.eqb res0 (Zpos XH)))
+                                                   (Z.eqb loc locHead)
+                                              then judge_steps f cap1 progs
+                                                     (j_lp cap1 s1
+                                                       (Z.to_nat x) false) r'0
+                                              else judge_steps f cap1 progs
+                                                     s1 r'0))))))
+                     | Zneg _ ->
+                       ({ j_q = s.j_q; j_ths = s.j_ths; j_ok = false }, []))))
+
+(** val check_threads : tstate list -> z list -> bool * z list **)
+
+let rec check_threads ths0 l =
+  match ths0 with
+  | [] -> (true, l)
+  | t :: rest ->
+    let (res0, l') = get_list l in
+    let ok = check_results (rev (finish t).t_done) res0 in
+    let (ok', l'') = check_threads rest l' in (((&&) ok ok'), l'')
+
+(** val slot_vals : z list -> z list **)
+
+let rec slot_vals = function
+| [] -> []
+| v :: l0 -> (match l0 with
+              | [] -> []
+              | _ :: r -> v :: (slot_vals r))
+
+(** val check_final : z -> z list -> z list -> bool **)
+
+let check_final cap1 q0 = function
+| [] -> false
+| m :: l0 ->
+  (match l0 with
+   | [] -> false
+   | h :: l1 ->
+     (match l1 with
+      | [] -> false
+      | t :: slots0 ->
+        let vs = slot_vals slots0 in
+        (&&)
+          ((&&) (Z.eqb m (Zneg (XO XH)))
+            (Z.eqb (u32 (Z.sub t h)) (Z.of_nat (length q0))))
+          (list_eqb
+            (map (fun j ->
+              nth (Z.to_nat (Z.modulo (Z.add h (Z.of_nat j)) cap1)) vs (Zneg
+                XH)) (seq O (length q0))) q0)))
+
+(** val judge : z list -> z list **)
+
+let judge args =
+  let (cs, r0) = get_list args in
+  let (out, _) = get_list r0 in
+  (match cs with
+   | [] -> Z0 :: []
+   | k :: l ->
+     (match l with
+      | [] -> Z0 :: []
+      | _ :: l0 ->
+        (match l0 with
+         | [] -> Z0 :: []
+         | _ :: l1 ->
+           (match l1 with
+            | [] -> Z0 :: []
+            | fill :: l2 ->
+              (match l2 with
+               | [] -> Z0 :: []
+               | nt :: r ->
+                 let n0 = Z.to_nat nt in
+                 let (progs, _) = get_lists n0 r in
+                 let cap1 = Z.pow (Zpos (XO XH)) k in
+                 let q0 = map fill_val (map Z.of_nat (seq O (Z.to_nat fill)))
+                 in
+                 let s0 = { j_q = q0; j_ths =
+                   (repeat { t_next = O; t_cur = None; t_done = [] } n0);
+                   j_ok = true }
+                 in
+                 let (s, rest) =
+                   judge_steps (add (length out) (S O)) cap1 progs s0 out
+                 in
+                 let (okr, rest') = check_threads s.j_ths rest in
+                 (zb ((&&) ((&&) s.j_ok okr) (check_final cap1 s.j_q rest'))) :: [])))))
+
 (** val entry : z -> z list -> z list **)
 
 let entry sub0 args =
-  if Z.eqb sub0 Z0 then run_case args else bADCASE :: []
+  if Z.eqb sub0 (Zpos (XO XH)) then judge args else entry0 sub0 args
 
 (** val upd0 : n list -> nat -> n -> n list **)
 
@@ -1794,9 +2133,9 @@ let rec dec_ops fuel l =
                  | None -> None)
               | None -> None))))
 
-(** val entry0 : z -> z list -> z list **)
+(** val entry1 : z -> z list -> z list **)
 
-let entry0 sub0 = function
+let entry1 sub0 = function
 | [] -> bADCASE :: []
 | k :: r ->
   (match dec_ops (length r) r with
@@ -1813,4 +2152,4 @@ let entry0 sub0 = function
 let dispatch p sub0 args =
   if Z.eqb p (Zpos XH)
   then entry sub0 args
-  else if Z.eqb p (Zpos (XO (XO (XO (XO XH))))) then entry0 sub0 args else []
+  else if Z.eqb p (Zpos (XO (XO (XO (XO XH))))) then entry1 sub0 args else []
